@@ -16,6 +16,13 @@ case "$pkgname" in
   binder|binder_test) D=binder ;;
   *) D=middleware/${pkgname%_test} ;;
 esac
+# a directory named in the demonstration's header comment wins (e.g. internal/memory)
+hint=$(head -12 "$DEMO" | grep -oE '(internal|middleware|client|binder)(/[a-z0-9_]+)*' | head -1)
+if [ -n "$hint" ] && [ -d "/repo/$hint" ]; then
+  hp=$(grep -m1 '^package ' /repo/$hint/*.go | head -1 | awk '{print $2}')
+  if [ "$hp" = "${pkgname%_test}" ]; then D=$hint; fi
+fi
+[ -d "/repo/$D" ] || { for c in internal/$pkgname internal/storage/$pkgname; do [ -d "/repo/${c%_test}" ] && D=${c%_test}; done; }
 echo "== $PROP $(basename "$DIR"): demo package $pkgname -> $D"
 if ! git -C "$SCR" apply "$PATCH"; then echo "RESULT patch-does-not-apply"; exit 3; fi
 TOUCHED=$(git -C "$SCR" diff --name-only | xargs -n1 dirname | sort -u | sed 's|^|./|' | tr '\n' ' ')
